@@ -385,8 +385,11 @@ def obligations(tier: str):
     else:
         obs.append(Chx("history", h_history, timeout=T, fix={"h": 3}, split={"o1": list(range(6)), "o2": list(range(6))}))
     kinds = list(range(9))
+    # two-operand operations: receivers of up to 3 elements in both tiers (an operand that is shorter than the
+    # receiver and still shares two elements with it needs a receiver of 3)
+    ns2 = [0, 1, 2, 3]
     for op in range(4):
-        obs.append(Chx(f"binop{op}", h_binop, timeout=T, fix={"op": op}, split={"kind": kinds, "n": ns}))
-        obs.append(Chx(f"inplace{op}", h_inplace, timeout=T, fix={"op": op}, split={"kind": kinds, "n": ns}))
-    obs.append(Chx("relations", h_relations, timeout=T, split={"kind": list(range(6)), "n": ns}))
+        obs.append(Chx(f"binop{op}", h_binop, timeout=T, fix={"op": op}, split={"kind": kinds, "n": ns2}))
+        obs.append(Chx(f"inplace{op}", h_inplace, timeout=T, fix={"op": op}, split={"kind": kinds, "n": ns2}))
+    obs.append(Chx("relations", h_relations, timeout=T, split={"kind": list(range(6)), "n": ns2}))
     return obs
